@@ -59,6 +59,107 @@ func checkC16(c *Ctx) {
 		}
 	}
 
+	// C16.1b: robust to helper refactors — acquire/release functions are computed from what they do to the routing maps.
+	{
+		acq, rel := map[*ssa.Function]bool{}, map[*ssa.Function]bool{}
+		isRouting := func(v ssa.Value) bool {
+			u, ok := v.(*ssa.UnOp)
+			if !ok {
+				return false
+			}
+			o, fld, ok := fieldOwner(u.X)
+			return ok && o == "dtls.Listener" && (fld == "connMap" || fld == "connToCert")
+		}
+		for _, f := range fns {
+			eachInstr(f, func(in ssa.Instruction) {
+				switch x := in.(type) {
+				case *ssa.MapUpdate:
+					if isRouting(x.Map) {
+						acq[f] = true
+					}
+				case *ssa.Call:
+					if b, ok := x.Call.Value.(*ssa.Builtin); ok && b.Name() == "delete" && isRouting(x.Call.Args[0]) {
+						rel[f] = true
+					}
+				}
+			})
+		}
+		// close over direct callers that only forward (helpers like register()/unregister())
+		for iter := 0; iter < 3; iter++ {
+			for _, f := range fns {
+				if acq[f] && rel[f] {
+					continue
+				}
+				eachInstr(f, func(in ssa.Instruction) {
+					if ci, ok := in.(ssa.CallInstruction); ok {
+						if cal := ci.Common().StaticCallee(); cal != nil {
+							if _, isDefer := in.(*ssa.Defer); !isDefer {
+								if acq[cal] && !rel[cal] && !strings.Contains(f.Name(), "ccept") {
+									acq[f] = true
+								}
+							}
+							if rel[cal] && !acq[cal] && !strings.Contains(f.Name(), "ccept") {
+								rel[f] = true
+							}
+						}
+					}
+				})
+			}
+		}
+		n := 0
+		for _, f := range fns {
+			var acquires []*ssa.Call
+			var releases []ssa.Instruction
+			eachInstr(f, func(in ssa.Instruction) {
+				ci, ok := in.(ssa.CallInstruction)
+				if !ok {
+					return
+				}
+				cal := ci.Common().StaticCallee()
+				if cal == nil || cal == f {
+					return
+				}
+				if call, isCall := in.(*ssa.Call); isCall && acq[cal] && !rel[cal] {
+					acquires = append(acquires, call)
+				}
+				if rel[cal] && !acq[cal] {
+					releases = append(releases, in)
+				}
+			})
+			if len(acquires) == 0 || len(releases) == 0 || acq[f] && !strings.Contains(f.Name(), "ccept") {
+				continue
+			}
+			// every release (call or defer) of a key must only be reachable after a successful acquire of that key
+			for _, rl := range releases {
+				n++
+				key := ""
+				if a := argsOf(rl.(ssa.CallInstruction).Common()); len(a) > 0 {
+					key = pathOf(a[0])
+				}
+				okEdges := map[edge]bool{}
+				var matching []*ssa.Call
+				for _, aq := range acquires {
+					if a := argsOf(&aq.Call); len(a) > 0 && pathOf(a[0]) == key {
+						matching = append(matching, aq)
+						for e := range edgesEstablishing(f, atomMatcher(errAtoms(aq, true)...)) {
+							okEdges[e] = true
+						}
+					}
+				}
+				early, w := reach(f, nil, isInstr(rl), nil, okEdges)
+				if len(matching) == 0 || len(okEdges) == 0 || early {
+					r.Bad("C16.1", fnName(f)+": release of "+firstN(key, 40)+" reachable without a successful registration", rl.Pos(), fnName(f),
+						"the removal of a listener registration (also when deferred) can run although this accept's own registration failed or has not happened: a refused duplicate accept unregisters the acceptor that is already waiting for that secret, whose connection is then delivered to nobody", r.blockPath(f, w)...)
+				} else {
+					r.OK("C16.1", fnName(f)+": release of "+firstN(key, 40)+" only after this accept's successful registration", rl.Pos(), "unreachable without the nil-error edge of the acquire")
+				}
+			}
+		}
+		if n == 0 {
+			r.Unk("C16.1", "acquire/release structure of the listener", token.NoPos, "", "no function pairs an insert into the routing maps with a removal")
+		}
+	}
+
 	// ---- C16.2
 	r.Rule("C16.2", "routing maps and SCTP read state only under their mutexes", 12)
 	checkGuardedBy(r, "C16.2", fns, []guardSpec{
@@ -322,6 +423,16 @@ func checkC16(c *Ctx) {
 		if n == 0 {
 			r.Unk("C16.4", "SCTPConn.Read: stream reads", f.Pos(), fnName(f), "none found")
 		}
+		// every read from the stream happens only when the previously buffered message has been handed out completely
+		eachInstr(f, func(in ssa.Instruction) {
+			call, ok := in.(*ssa.Call)
+			if !ok || !call.Call.IsInvoke() || call.Call.Method.Name() != "Read" {
+				return
+			}
+			g := guarded(f, in, Atom{"(" + orderEq("s.readLength", "s.readOffset") + ")", true})
+			r.Check(g, "C16.4", "SCTPConn.Read: the stream is read only when the buffered message is drained ("+firstN(pathOf(argsOf(&call.Call)[0]), 20)+")", in.Pos(), fnName(f), "guarded by readOffset == readLength",
+				"a read from the stream can happen while bytes of the previous message are still buffered: the next message overtakes the remainder and the byte stream is delivered out of order")
+		})
 		// the stored error is surfaced only when the buffer is drained: the Return's error is readErr only under readOffset == readLength
 		eachInstr(f, func(in ssa.Instruction) {
 			if u, ok := in.(*ssa.UnOp); ok && u.Op == token.MUL {
